@@ -205,6 +205,9 @@ pub struct Engine {
     pub ite_mode: bool,
     /// integer scenario (SymI): emit Int-sorted scripts
     pub int_mode: bool,
+    /// SymI: arithmetic results are *assumed* in range (no overflow obligations), for scenarios whose
+    /// subject is not overflow
+    pub range_assumed: bool,
     /// SymI: obligations "intermediate stays within the machine range" (cond ids that must hold)
     pub range_obl: Vec<(String, Fm)>,
     // recorder
@@ -245,6 +248,7 @@ impl Default for Engine {
             calls: 0,
             ite_mode: false,
             int_mode: false,
+            range_assumed: false,
             range_obl: vec![],
             pre: vec![],
             goals: vec![],
@@ -291,6 +295,7 @@ impl Engine {
         self.check_defined = false;
         self.ite_mode = false;
         self.int_mode = false;
+        self.range_assumed = false;
         self.fresh = 0;
     }
     pub fn mk(&mut self, n: Node) -> u32 {
@@ -407,6 +412,9 @@ pub fn set_ite_mode(on: bool) {
 }
 pub fn set_int_mode() {
     with(|e| e.int_mode = true);
+}
+pub fn set_range_assumed() {
+    with(|e| e.range_assumed = true);
 }
 pub fn set_max_decisions(n: usize) {
     with(|e| e.max_decisions = n);
